@@ -665,6 +665,15 @@ impl<Writer: Write> Mp4Writer<Writer> {
         }
         self.finalized = true;
 
+        // The visual sample entry stores width and height in 16 bits; larger values cannot
+        // be written and are reported instead of tripping the builders' invariants.
+        if video.width > u32::from(u16::MAX) || video.height > u32::from(u16::MAX) {
+            return Err(io::Error::new(
+                io::ErrorKind::InvalidInput,
+                "video width and height must fit in 16 bits",
+            ));
+        }
+
         let video_config = self
             .video_config
             .clone()
